@@ -816,10 +816,46 @@ func buildCase(r *Rng, i int, tier string) *hgen {
 		c.St.CT = ""
 	case k < 96:
 		c.St.CT = "TEXT/HTML"
-	default:
+	case k < 98:
 		c.St.CT = "application/xhtml+xml"
+	default:
+		c.St.CT = g.pick([]string{"text/html; charset=ISO-8859-1", "application/xhtml+xml; charset=utf-8", "text/html;charset=UTF-8"})
 	}
 	c.Doctype = r.Intn(4)
+	// response headers and the way the body is delivered
+	switch k := r.Intn(100); {
+	case k < 50:
+	case k < 62:
+		c.St.Srv = g.pick([]string{"nginx", "Apache/2.4.57 (Debian)", "cloudflare"})
+	case k < 76:
+		c.St.Srv = "AmazonS3"
+	case k < 84:
+		c.St.Srv = "UploadServer"
+	case k < 92:
+		c.St.Srv = "Windows-Azure-Blob/1.0 Microsoft-HTTPAPI/2.0"
+	case k < 96:
+		c.St.Srv = "AliyunOSS"
+	default:
+		c.St.Srv = "WasabiS3/7.10 (head2)"
+	}
+	c.St.Rd = []string{"", "", "", "dataerr", "dataerr", "dataerr", "dataerr", "half", "onebyte", "dataerr"}[r.Intn(10)]
+	c.St.CL = r.Chance(55)
+	switch k := r.Intn(100); {
+	case k < 40:
+	case k < 55:
+		c.St.Pad = 1 + r.Intn(2048)
+	case k < 80:
+		c.St.Pad = 2048 + r.Intn(8192)
+	case k < 90: // around the 4 KiB steps of copyWithTimeout's buffer after the 2 KiB that are sniffed
+		c.St.Pad = 2048 + 4096*(1+r.Intn(3)) - r.Intn(1200)
+	case k < 97:
+		c.St.Pad = 10000 + r.Intn(30000)
+	default:
+		c.St.Pad = 65536 + r.Intn(8192)
+	}
+	if c.St.Pad > 0 && c.Doctype == 0 {
+		c.Doctype = 1 // the sniffer must still see the document's first tag within its 2 KiB
+	}
 
 	// document
 	nh := r.Intn(5)
